@@ -29,7 +29,7 @@ def draw_values(rng):
     if kind == "bools":
         return rng.sample([True, False], min(k, 2))
     if kind == "scalar":
-        return rng.choice([5, "one", 0.5])
+        return rng.choice([5, "one", 0.5, 0, 0.0, False, True, -1])  # falsy scalars are values like any other
     return rng.sample([1, "1x", 2.5, "z", 0], k)
 
 
